@@ -86,6 +86,8 @@ def fold_check(ck, u, eng, name, host_big, tag, proved):
     f = u.fn(name)
     if f is None:
         return ck.broken(rule, key, '', 'function missing')
+    if u.fn('crc16_octet') is None:
+        return ck.broken(rule, key, cast.where(f), 'the fold is decided in terms of calls of crc16_octet, which no longer exists as a function')
     where = cast.where(f)
     ck.function(name)
     params = u.params(name)
